@@ -150,12 +150,12 @@ def search(ctx):
 SPEC = {
     "id": "C10",
     "gens": ["LexTables", "LitFormatTables", "SourceMapTables"],
-    "lean_modules": ["RsslVerif.Thm.C10", "RsslVerif.Lemmas.LexNumeral"],
+    "lean_modules": ["RsslVerif.Thm.C10", "RsslVerif.Lemmas.LexNumeral", "RsslVerif.Lemmas.LexNumeralInt"],
     "theorems": [T + n for n in [
         "token_progress", "token_error_in_input", "token_no_panic", "spans_tile", "reemit_reproduces_input",
         "error_pos_in_range", "tokens_before_error_tile", "lexing_terminates", "read_never_panics",
         "literalIntWith_closed", "int_value_exact", "int_overflow_rejected", "int_rejected_only_when_too_large",
-        "literalInt_radix", "token_numeric_dispatch", "numeric_dispatch_as_modelled", "numeral_is_one_token", "numeral_first_token_span",
+        "literalInt_radix", "token_numeric_dispatch", "numeric_dispatch_as_modelled", "numeral_is_one_token", "numeral_first_token_span", "numeral_int_is_one_token_partial",
         "float_parts_shape_as_modelled", "lex_float_nearest", "nearest64_total", "nearest64_correct", "nearest64_zero",
         "nearest_correct_partial", "nearest_correct", "nearest_monotone", "nearest64_monotone",
         "nearest_exact_on_representable",
@@ -180,7 +180,16 @@ SPEC = {
                   "rejected with IntegerLiteralTooLarge at its first digit, and only then. Float literals (full): token "
                   "bits = narrowOnce(suffix, nearest64(decimal text)), and nearest64 / nearestRat (exact Nat arithmetic) "
                   "are proved to be IEEE 754 round-to-nearest-ties-to-even, total, exact on representable values and "
-                  "monotone. Output (full, one stated assumption): format_literal is modelled arm by arm (arms, guards, "
+                  "monotone. One numeral, one token (maximal munch): every numeral of the decimal floating grammar "
+                  "digits '.' digits* [exp] [suffix] | digits exp [suffix], exp = (e|E)[+|-]digits, suffix = h H f F l L "
+                  "(inductive Numeral, unbounded digit counts, leading zeros, no fraction digits), followed by any text "
+                  "that does not continue it, is read by token_intermediate as exactly one token consuming exactly the "
+                  "numeral: the float literal of its suffix' kind with nearest64 of its digits and exponent "
+                  "(numeral_is_one_token, numeral_first_token_span; full for that grammar; `.5`-style numerals are a "
+                  "known finding, #INF is covered by the run only); decimal integer numerals with all 13 suffix "
+                  "spellings likewise (numeral_int_is_one_token_partial: octal and hexadecimal numerals are covered by "
+                  "the run only). The digit arm of token_intermediate is re-extracted every run and must be exactly "
+                  "`literal_float, else literal_int on OtherTokenBytes` (numeric_dispatch_as_modelled). Output (full, one stated assumption): format_literal is modelled arm by arm (arms, guards, "
                   "format strings, write_infinity_*, generate_literal of both generators and parse_literal re-extracted "
                   "every run); the printed text of an integer literal lexes back to the same kind and value "
                   "(emit_int_exact); of a finite float of any kind to the same kind and bits (emit_value_exact) assuming "
@@ -201,7 +210,14 @@ SPEC = {
             "endings and splices, every decimal exponent -345..325 in every spelling of the exponent part, and a numeric "
             "stream (integers of 3 bases up to 25 digits with 13 suffix spellings, boundary biased; decimal floats up to "
             "20+ significant digits, exponents -330..310 and far beyond, biased to halfway points, subnormals, overflow; "
-            "a dense fast-path boundary family); C10.emit: literals (random bit patterns of every float kind spelled "
+            "a dense fast-path boundary family); C10.num: one numeral of the C numeral grammar (built structurally: "
+            "4 integer prefix classes x 13 suffix spellings x boundary / random bodies up to 25 digits; floats with or "
+            "without integer digits, leading zeros, with or without point / fraction digits, exponent letter e|E x sign "
+            "none|+|- x digits, #INF, suffix none|h|H|f|F|l|L — a systematic product of 7.3 k numerals every run plus "
+            "10 k (thorough 300 k) random ones) followed by one of 37 followers and optionally preceded by one of 26 "
+            "texts: an independent scanner decides from the spelling which ONE token it is (kind, exact value by the "
+            "big-integer reference) and the real lexer must return exactly that token with exactly the numeral's span, or "
+            "IntegerLiteralTooLarge at its first digit when it does not fit; C10.emit: literals (random bit patterns of every float kind spelled "
             "exactly, all integer spellings) x targets dx/vk/msl x 14 contexts (statement, unary minus, typed "
             "initialisers, array size, enum value, enum cast, template argument, macro from an included file, define "
             "passed to compile, ## paste) through rssl::compile, printed literal re-read by an exact reference; C10.fmt: "
@@ -219,7 +235,11 @@ SPEC = {
         "Lean 4.33 kernel; axioms propext / Classical.choice / Quot.sound only (audited by #print axioms)",
         "tools/gens/c10.py (LexTables: Token variants, is_whitespace, LexerErrorReason, any_word arms, choose lists, "
         "symbol_single / symbol_op_or_op_equals instances, int_type / float_type arms) — re-run on /repo every time",
-        "hand-written Model/Lexer.lean mirrors lexer.rs; tied to the code by the correspondence run only",
+        "hand-written Model/Lexer.lean mirrors lexer.rs; tied to the code by the correspondence run, and for the digit "
+        "arm of token_intermediate and calculate_float64_from_parts also by shape obligations (numeric_dispatch_as_modelled, "
+        "float_parts_shape_as_modelled)",
+        "harness/src/c10_num.rs: the numeral grammar (C integer / floating constants + HLSL's h suffix and #INF) as the "
+        "harness reads it: our reading of which texts are ONE numeric literal",
         "Rust str::parse::<f64> and `f64 as f32` are trusted to be correctly rounded; the run compares them bit for bit "
         "with Spec/Dec2Bin.lean (exact Nat arithmetic) and with the harness' independent big-integer bisection",
         "Spec/Dec2Bin.lean and Spec/Lexer.lean: our reading of 'nearest double' and 'spans tile the file'",
@@ -235,6 +255,8 @@ SPEC = {
     "assumptions": [
         "files are shorter than 2^32 bytes (SourceManager::add_file asserts it), so `as u32` on offsets is exact",
         "the input is valid UTF-8 (TokenStream::new takes &str)",
+        "numerals are those of the C grammar: `1f` / `1h` (HLSL accepts them; rssl reads Int 1, Id f), `08`, `0189` are "
+        "not numerals and are not judged; `.5` and `0X1F` are numerals and are the two known findings of C10.num",
         "output clause: the emitted text is read with the literal grammar of rssl itself (nearest double, narrowed once "
         "for f/h); what DXC or the Metal compiler make of a literal is outside the property; MSL names INFINITY / FLT_MAX "
         "stand for their values",
